@@ -9,6 +9,7 @@ From E57 Require Import Base.Prelude Model.Device Model.PagedWriter Model.PagedR
   Model.XmlGen Model.XmlExtract Model.ReaderFull Spec.XmlRender Spec.MetaTree Spec.XgWriterOk.
 From E57 Require Import Proofs.PagedWriterLemmas Proofs.CrashOpen Proofs.CrashMain
   Proofs.XgRender Proofs.XgWf Proofs.XmlpPrefixBase Proofs.XmlpPrefix Proofs.XmlpRoundtripDoc.
+From E57 Require Import Proofs.XeTotalFull.
 From Coq Require Import ZifyN ZifyNat ZifyBool.
 
 (** the crate's writer writes nothing behind the root element *)
@@ -71,11 +72,9 @@ Proof.
   destruct r as [[[s0 h0] x0]|e|]; [|discriminate Hnew|discriminate Hnew].
   destruct (xml_meta pf64 pf32 fdiv x0) as [m0|e|] eqn:Em; [|discriminate Hnew|discriminate Hnew].
   cbn [snd] in Hnew. injection Hnew as -> -> -> ->.
-  unfold xml_meta, xml_read in Em.
-  destruct (negb _); [discriminate Em|].
-  destruct (xml_parse x) as [d'| |] eqn:Ep; [|discriminate Em|discriminate Em].
+  destruct (xml_meta_ok_inv _ _ _ _ _ Em) as (_ & _ & d' & Ep & Em').
   destruct (HA s h x d' eq_refl Ep) as (E1 & E2 & E3 & E4).
-  subst d'. split; [exact E1|]. split; [exact E3|]. split; [exact E4|exact Em].
+  subst d'. split; [exact E1|]. split; [exact E3|]. split; [exact E4|exact Em'].
 Qed.
 
 (** non-vacuity: the metadata example of slice xg (an extension, a point cloud, a spherical image;
